@@ -449,7 +449,9 @@ class Producer(object):
         # We can be triggered by the LoopingCall, and have nothing to send...
         # Or, we've got SendRequest(s) to send, but are still processing the
         # previous batch...
-        if (not self._batch_reqs) or self._batch_send_d:
+        if (not self._batch_reqs) or self._batch_send_d or self.stopping:
+            # (once stop() has been called nothing more may be transmitted:
+            # stop() cancels the queued requests itself)
             return
 
         # Save a local copy, and clear the global list & metrics
